@@ -229,6 +229,8 @@ func (r *Runner) monTA(s *Step, rep *Reply) {
 		stale := ""
 		if _, has := grants[c.ID]; !has {
 			stale = "stale-pinning:container-lost-its-grant"
+		} else if cr, _ := r.cacheRes(c.ID); cr.Cpus == "" {
+			stale = "stale-pinning:pool-has-no-sharable-cpu"
 		}
 		if !x.SubsetOf(p.Avail) {
 			r.Violate("C01", "outside-available", stale+s.Op, "after %s: %s is pinned to %q, outside the available CPUs %s", s.Op, c.Key, c.Shadow.Cpus, p.Avail)
